@@ -51,7 +51,7 @@ SIBLINGS = {
     STRINGS[4]: "CC{[$][$]C([$])C[$]}|uniform(12, 72)|COOC{[$][$]C[$][$]}|uniform(12, 72)|CO",
     STRINGS[5]: "[H]{[>][<]CCc1ccccc1[>][<]}|poisson(300)|CC{[>][<]CCC(=O)OC[>][<]}|log_normal(200, 1.2)|C",
 }
-OPS = ["P", "G1", "G2", "GG", "S", "E", "M", "RG", "SG", "AG", "FF", "EP", "SY", "GB"]
+OPS = ["P", "G1", "G2", "GG", "S", "E", "M", "MM", "RG", "SG", "AG", "FF", "EP", "SY", "GB"]
 SEEDS = (1, 2, 4, 5)  # seeds 4 and 5 give a negative first gaussian draw for the wide law of the third string
 
 _BASELINE_CODE = r"""
@@ -93,6 +93,19 @@ for s in json.loads(sys.argv[2]):
         m = gbigsmiles.Molecule(s)  # a fresh parse for every seed: the baseline has no history at all
         mg = m.generate(rng=np.random.default_rng(seed))
         rec["gen"][str(seed)] = [mg.smiles, round(float(mg.weight), 6)]
+    # the mirror image of a never-used object (what gen_mirror() of any instance must behave like)
+    try:
+        mm = gbigsmiles.Molecule(s).gen_mirror()
+        mrec = {"str": str(mm), "noext": mm.generate_string(False), "generable": bool(mm.generable), "gen": {}, "graphs": {}}
+        for seed in (1, 2, 4, 5):
+            try:
+                mg = gbigsmiles.Molecule(s).gen_mirror().generate(rng=np.random.default_rng(seed))
+                mrec["gen"][str(seed)] = [mg.smiles, round(float(mg.weight), 6)]
+            except Exception as e:
+                mrec["gen"][str(seed)] = ["raises:" + type(e).__name__, 0.0]
+        rec["mirror"] = mrec
+    except Exception as e:
+        rec["mirror"] = None
     out[s] = rec
 print(json.dumps(out))
 """
@@ -260,6 +273,15 @@ def apply_op(op, objs, inst, s):
                 str(m)
             except Exception:  # noqa
                 pass
+    elif op == "MM":
+        # a mirror image that stays alive and is used like any other instance (at most two of them)
+        if not getattr(o, "_gbmc_mirror", False) and sum(1 for x in objs if getattr(x, "_gbmc_mirror", False)) < 2:
+            m = o.gen_mirror()
+            if m is not None:
+                m._gbmc_mirror = True
+                if getattr(o, "_gbmc_sibling", False):
+                    m._gbmc_sibling = True
+                objs.append(m)
     elif op == "RG":
         try:
             o.gen_reaction_graph()
@@ -322,6 +344,12 @@ def invariant(objs, base, res, hist, s, sib_base=None, with_graphs=True):
         mybase = base
         if sib_base is not None and getattr(o, "_gbmc_sibling", False):
             base = sib_base
+        is_mirror = getattr(o, "_gbmc_mirror", False)
+        if is_mirror:
+            if base.get("mirror") is None:
+                base = mybase
+                continue
+            base = base["mirror"]
         try:
             if str(o) != base["str"]:
                 out.append(("printed-form-changed", f"str() of instance {i} is {str(o)!r}, baseline {base['str']!r}"))
@@ -329,13 +357,18 @@ def invariant(objs, base, res, hist, s, sib_base=None, with_graphs=True):
                 out.append(("noext-form-changed", f"generate_string(False) of instance {i} changed"))
             if bool(o.generable) != base["generable"]:
                 out.append(("generable-changed", f"generable of instance {i} is {o.generable}"))
-            gs = _graph_sigs(o) if (with_graphs and i != 1) else base["graphs"]
+            gs = _graph_sigs(o) if (with_graphs and i != 1 and not is_mirror) else base["graphs"]
             if gs != base["graphs"]:
                 which = [k for k in gs if gs[k] != base["graphs"].get(k)]
                 out.append((f"graph-output-changed-{'+'.join(which)}", f"instance {i}: {which} graph differs from the one a fresh parse gives"))
             for seed in SEEDS:
-                mg = o.generate(rng=np.random.default_rng(seed))
-                got = [mg.smiles, round(float(mg.weight), 6)]
+                try:
+                    mg = o.generate(rng=np.random.default_rng(seed))
+                    got = [mg.smiles, round(float(mg.weight), 6)]
+                except Exception as e:  # noqa
+                    if not is_mirror:
+                        raise
+                    got = ["raises:" + type(e).__name__, 0.0]
                 if got != base["gen"][str(seed)]:
                     out.append(("seeded-generation-differs", f"instance {i}, seed {seed}: {got[0]} ({got[1]}) instead of {base['gen'][str(seed)][0]} ({base['gen'][str(seed)][1]})"))
         except Exception as e:  # noqa
@@ -379,6 +412,8 @@ def run_history(hist, s, base, res, sib=None, sib_base=None):
             return [(k, w, step) for k, w in bad], key
         # every parsed object must still look like a fresh parse
         for i, o in enumerate(objs):
+            if getattr(o, "_gbmc_mirror", False):
+                continue
             if fp(o) != (fps if getattr(o, "_gbmc_sibling", False) else fp0):
                 res["extra"]["objects_differing_from_fresh_parse"] = res["extra"].get("objects_differing_from_fresh_parse", 0) + 1
     return [], key
